@@ -1,16 +1,19 @@
 ---- MODULE MC_Measures ----
 (* Model-checking instances of Measures: constants that cannot be written in a cfg file, and the   *)
-(* partition of the shapes over parallel TLC runs (environment C19_PART / C19_NPART, default 0/1). *)
+(* partition of the shapes over parallel TLC runs (environment C19_PART / C19_NPART, default 0/1;   *)
+(* C19_MAXF restricts a run to the shapes with at most that many factors).                         *)
 EXTENDS Measures, IOUtils
 
 AllShapes == UNION {[1..d -> 1..3] : d \in 1..3}          \* <= 3 factors x 1..3 points, unequal sizes included
 Cost(sh) == ProdSeq(sh) * ParLen(sh)
 Code(sh) == SumSeq([m \in 1..Len(sh) |-> sh[m] * 4^(m - 1)])
 Before(t, s) == Cost(t) > Cost(s) \/ (Cost(t) = Cost(s) /\ Code(t) < Code(s))
-Rank(sh) == Cardinality({t \in AllShapes : Before(t, sh)})
 NPart == IF "C19_NPART" \in DOMAIN IOEnv THEN atoi(IOEnv.C19_NPART) ELSE 1
 Part  == IF "C19_PART"  \in DOMAIN IOEnv THEN atoi(IOEnv.C19_PART) ELSE 0
-MCShapes == {sh \in AllShapes : Rank(sh) % NPart = Part}   \* round robin over the cost-sorted shapes
+MaxF  == IF "C19_MAXF"  \in DOMAIN IOEnv THEN atoi(IOEnv.C19_MAXF) ELSE 3   \* optionally only shapes with <= MaxF factors
+FShapes == {sh \in AllShapes : Len(sh) <= MaxF}
+Rank(sh) == Cardinality({t \in FShapes : Before(t, sh)})
+MCShapes == {sh \in FShapes : Rank(sh) % NPart = Part}     \* round robin over the cost-sorted shapes
 
 (* weight vectors a loaded factor may carry (zeros included) *)
 QWFam == << {<<2>>, <<1>>}, {<<1, 2>>, <<0, 1>>}, {<<1, 2, 1>>, <<0, 2, 0>>} >>
